@@ -38,7 +38,7 @@ TRUSTED_BASE = [
     'correspondence harness tools/props/C01.py: exact export of the inputs (integers over a power-of-two denominator, re-checked '
     'against the arrays handed to the code), nested tolist() reading of every compute() result, float export by core.float_to_coq, '
     'math.log for the ln table of the MIA cases',
-    'tolerance rules of the per-distinguisher models re-used by Model/Batching.bcheck: Cpa.cpa_tol / dpa_tol, Partitioned.obs_ok, '
+    'tolerance rules used by Model/Batching.bcheck: corr_tol / diff_tol (the budgets of Model/Cpa.v), Partitioned.obs_ok, '
     'Mia res_tol, Template small_dyadic / cov_mag / 64 u (|form| + 10), Ttest.meanvar_ok; Run/Compare.v',
     'the harness memoises scared.distinguishers.partitioned._define_lut_func per class set (each call JIT-compiles the same pure '
     'look-up closure; the first call per class set is the real one)',
